@@ -2,6 +2,7 @@ SPECIFICATION Spec
 CONSTANTS
   Addrs <- MCAddrs
   Refs <- MCRefs
+  VarKeys <- MCVarKeys
   Links <- MCLinks
   Keys <- MCKeys
   KeyType <- MCKeyType
